@@ -379,3 +379,33 @@ def batch_reductions(p, batch_syms=("B",), within=None):
         if any(d in batch_syms for d in dims):
             out.append((site, op, dims))
     return out
+
+
+def occurs_outside(term, name, ops):
+    """Does the symbol `name` occur in `term` anywhere that is not underneath an application of one of `ops`?"""
+    def walk(x):
+        if isinstance(x, T.Poly):
+            return any(walk(a) for mono in x.terms for a, _pw in mono)
+        if isinstance(x, T.Sym):
+            return x.name == name
+        if isinstance(x, T.Exp):
+            return walk(x.arg)
+        if isinstance(x, T.App):
+            if x.op in ops:
+                return False
+            return any(walk(a) for a in x.args)
+        if isinstance(x, (tuple, list)):
+            return any(walk(a) for a in x)
+        return False
+
+    return walk(term)
+
+
+def uses_part(term, op, k):
+    """Is component k (idx0(<op>(...), k)) of a tuple-valued application used anywhere in the term?"""
+    for a in term.all_atoms():
+        if isinstance(a, T.App) and a.op == "idx0" and a.args[1] == k:
+            inner = a.args[0].single_atom() if hasattr(a.args[0], "single_atom") else None
+            if inner is not None and isinstance(inner, T.App) and inner.op == op:
+                return True
+    return False
